@@ -138,18 +138,40 @@ func (w *World) accepted(ls *lisState, nfd int, sa syscall.Sockaddr, now time.Du
 	}
 	seg := codec.TCPSeg{SrcPort: ls.Addr.Port(), DstPort: c.remote.Port(), Seq: ls.L.ServerSeq, Ack: c.isn,
 		Flags: codec.FlagSYN | codec.FlagACK, Window: 65535}
-	opts := []byte{2, 4, 0xff, 0xd7}
+	mss := []byte{2, 4, 0xff, 0xd7}
+	var sackOK, ts []byte
 	if ls.L.Permitted {
-		opts = append(opts, 4, 2)
+		sackOK = []byte{4, 2}
 	}
 	if ls.L.Timestamps {
 		if ls.L.TruncTS {
-			opts = append(opts, 8, 6, 0, 0, 0, 9)
+			ts = []byte{8, 6, 0, 0, 0, 9}
 		} else {
-			opts = append(opts, codec.TimestampOption(555000, 1234)...)
+			ts = codec.TimestampOption(555000, 1234)
 		}
 	}
-	opts = append(opts, 1, 3, 3, 7)
+	wscale := []byte{3, 3, 7}
+	cat := func(parts ...[]byte) []byte {
+		var o []byte
+		for _, p := range parts {
+			o = append(o, p...)
+		}
+		return o
+	}
+	nop := []byte{1}
+	var opts []byte
+	switch ls.L.OptLayout {
+	case "bsd": // mss,nop,wscale,nop,nop,TS,sackOK,eol (macOS / FreeBSD)
+		opts = cat(mss, nop, wscale, nop, nop, ts, sackOK, []byte{0})
+	case "win": // mss,nop,wscale,sackOK,TS
+		opts = cat(mss, nop, wscale, sackOK, ts)
+	case "tsfirst":
+		opts = cat(ts, nop, nop, sackOK, mss, nop, wscale)
+	case "sacklast":
+		opts = cat(mss, nop, wscale, nop, nop, ts, nop, nop, sackOK)
+	default: // mss,sackOK,TS,nop,wscale (Linux)
+		opts = cat(mss, sackOK, ts, nop, wscale)
+	}
 	seg.Options = opts
 	t := codec.BuildTCP(ls.Addr.Addr(), c.remote.Addr(), seg)
 	b := codec.BuildIPv4(ls.Addr.Addr(), c.remote.Addr(), codec.ProtoTCP, 64, codec.V4Opts{Flags: 2}, t)
